@@ -14,6 +14,7 @@
 (***************************************************************************)
 EXTENDS Integers, Sequences, FiniteSets, TLC, Json, IOUtils
 LOCAL INSTANCE FiniteSetsExt
+LOCAL INSTANCE SequencesExt
 U  == INSTANCE U64
 D  == INSTANCE Directory
 Hd == INSTANCE Header
@@ -81,11 +82,16 @@ SaveTags(e) ==
   IF cfg.ic = 0
   THEN (IF e.res = "err" THEN {} ELSE {"C19:unknown_internal_compression_not_refused_on_write"})
   ELSE IF e.res # "ok" THEN {"C01:write_failed"}
+  ELSE IF Has(e.file, "undissectable") THEN {"C02:written_file_unreadable"}
   ELSE LET wf == A!WellFormed(e.file) IN
-       IF wf # "ok" THEN {"C02:" \o wf}
-       ELSE SettingsTags(e.file) \cup LayoutTags(e.file)
-            \cup (IF \E p \in saved : p[1] = abs /\ p[2] = CfgKey(cfg) /\ p[3] = e.api /\ p[4] # e.ftok
-                  THEN {"C16:same_logical_archive_different_bytes"} ELSE {})
+       (IF wf # "ok" THEN {"C02:" \o wf} ELSE {})
+       \* the clauses of other properties are judged as soon as the directory hints are verified
+       \cup (IF wf \in {"ok", "header_counters_wrong", "clustered_flag_but_not_in_id_order", "metadata_not_json_object",
+                        "tile_range_outside_data_section"}
+             THEN SettingsTags(e.file) \cup LayoutTags(e.file) ELSE {})
+       \* C16 is a statement about bytes only: judged whether or not the file is well-formed
+       \cup (IF \E p \in saved : p[1] = abs /\ p[2] = CfgKey(cfg) /\ p[3] = e.api /\ p[4] # e.ftok
+             THEN {"C16:same_logical_archive_different_bytes"} ELSE {})
 
 \* observed settings after an open (C01 / C03): equal to what the file stores
 ObservedTags(e, F, pre) ==
@@ -222,8 +228,8 @@ SetOfTiles(ts) == {<<ts[k].id, ts[k].tok>> : k \in 1..Len(ts)}
 \* File: a file image becomes the current file; it must be spec-valid (else the driver is at fault)
 TrFile ==
   /\ IsEvent("File")
-  /\ LET e == Rec[l]  F == e.file  wf == WellFormedForeign(F) IN
-       /\ cur' = [F |-> F, full |-> A!Addressed(F.tiles), ol |-> DT!ExpandOL(F.tiles)]
+  /\ LET e == Rec[l]  F == e.file  wf == IF Has(e.file, "undissectable") THEN "undissectable" ELSE WellFormedForeign(F) IN
+       /\ cur' = IF wf # "ok" THEN NoFile ELSE [F |-> F, full |-> A!Addressed(F.tiles), ol |-> DT!ExpandOL(F.tiles)]
        /\ Emit(IF wf # "ok" THEN {"STIMULUS_file_not_wellformed_" \o wf}
                ELSE IF Has(e, "exp_tiles") /\ e.exp_tiles # [k \in 1..Len(F.tiles) |-> A!StripTok(F.tiles[k])]
                     THEN {"STIMULUS_assembled_file_differs_from_generated_layout"} ELSE {})
@@ -309,10 +315,66 @@ TrWriteDirs ==
   /\ Emit(WriteDirsTags(Rec[l]))
   /\ AllUnch /\ UNCHANGED cur
 
+(* ---- stream-level observations on whole archives (C18, C20) ---------------------------------- *)
+Unreadable(F) == Has(F, "undissectable")
+
+\* to_writer started at stream position p: e.file is the dissection of the stream contents from p on
+SaveAtTags(e) ==
+  IF e.res # "ok" THEN {"C18:write_failed"}
+  ELSE (IF ~e.prefix_intact \/ U!Lt(e.min_write_pos, e.p) THEN {"C18:bytes_before_start_position_overwritten"} ELSE {})
+       \cup (IF ~Has(e, "file") \/ Unreadable(e.file) THEN {"C18:no_readable_archive_at_start_position"}
+             ELSE LET wf == A!WellFormed(e.file)  h == HdrOf(e.file) IN
+                  IF wf # "ok" THEN {"C18:archive_at_start_position_invalid_" \o wf}
+                  ELSE (IF A!Addressed(e.file.tiles) # SetOfTiles(e.tiles) THEN {"C18:archive_at_start_position_differs_from_written_one"} ELSE {})
+                       \cup (IF e.final_pos # U!Plus(e.p, U!Plus(h.data_off, h.data_len)) THEN {"C18:stream_not_left_at_archive_end"} ELSE {}))
+TrSaveAt ==
+  /\ IsEvent("SaveAt")
+  /\ Emit(SaveAtTags(Rec[l]))
+  /\ AllUnch /\ UNCHANGED cur
+
+\* byte ranges read during an open: [pos (limbs), length]
+InSec(pos, n, off, slen) == U!Le(off, pos) /\ U!Le(U!Plus(pos, N(n)), U!Plus(off, slen))
+OpenReadsTags(e) ==
+  LET h == HdrOf(cur.F) IN
+  IF e.res # "ok" THEN {"C20:open_failed"}
+  ELSE IF \E k \in 1..Len(e.reads) :
+            LET pos == e.reads[k][1]  n == e.reads[k][2] IN
+            ~( InSec(pos, n, U!Zero, N(127)) \/ InSec(pos, n, h.meta_off, h.meta_len)
+               \/ InSec(pos, n, h.root_off, h.root_len) \/ InSec(pos, n, h.leaf_off, h.leaf_len) )
+       THEN {"C20:open_reads_outside_header_metadata_and_directory_sections"} ELSE {}
+TrOpenReads ==
+  /\ IsEvent("OpenReads")
+  /\ Emit(OpenReadsTags(Rec[l]))
+  /\ AllUnch /\ UNCHANGED cur
+
+\* reads of one tile lookup: exactly the tile's byte range, nothing for an absent tile
+CoverOK(reads, start, n) ==
+  LET S == SortSeq(reads, LAMBDA a, b : U!Lt(a[1], b[1]))
+      end == U!Plus(start, N(n))
+      r == FoldLeft(LAMBDA acc, x : IF acc.ok /\ U!Le(x[1], acc.cov) /\ U!Le(start, x[1]) /\ U!Le(U!Plus(x[1], N(x[2])), end)
+                                    THEN [ok |-> TRUE, cov |-> U!MaxU(acc.cov, U!Plus(x[1], N(x[2])))]
+                                    ELSE [ok |-> FALSE, cov |-> acc.cov],
+                    [ok |-> TRUE, cov |-> start], S)
+  IN Len(reads) > 0 /\ r.ok /\ r.cov = end
+TileReadOK(e, c) ==
+  LET T == cur.F.tiles  h == HdrOf(cur.F)
+      hits == {k \in 1..Len(T) : D!Covers(T[k], c.id)}
+      visible == ~e.partial \/ U!Le(c.id, e.hi)
+  IN IF hits = {} \/ ~visible THEN c.res = "none" /\ Len(c.reads) = 0
+     ELSE LET t == T[CHOOSE k \in hits : TRUE] IN
+          c.res = "some" /\ U!IsSmall(t.len) /\ CoverOK(c.reads, U!Plus(h.data_off, t.off), U!ToNat(t.len))
+TrTileReads ==
+  /\ IsEvent("TileReads")
+  /\ LET e == Rec[l] IN
+       Emit(IF \E k \in 1..Len(e.cases) : ~TileReadOK(e, e.cases[k])
+            THEN {"C20:tile_lookup_does_not_read_exactly_the_tile_range"} ELSE {})
+  /\ AllUnch /\ UNCHANGED cur
+
 Init == /\ l = 1 /\ nfail = 0 /\ InitStore /\ cfg = DefaultCfg /\ lens = <<>> /\ saved = {} /\ cur = NoFile
 Next == TrNew \/ TrSet \/ TrAdd \/ TrRemove \/ TrGet \/ TrGetZxy \/ TrList \/ TrCount \/ TrBulk
         \/ TrSave \/ TrReopen \/ TrObserve \/ TrReset
         \/ TrFile \/ TrOpened \/ TrPartial \/ TrReadDirs \/ TrFind \/ TrOpenReject \/ TrWriteDirs
+        \/ TrSaveAt \/ TrOpenReads \/ TrTileReads
 Spec == Init /\ [][Next]_tvars
 
 \* the invariants of the base module hold in every state of the trace behaviour
